@@ -155,6 +155,29 @@ impl RateLimiter {
         }
     }
 
+    /// Consume one tenant token and, if a global limit is configured, one global token.
+    ///
+    /// The tenant bucket stays locked across the global consume and the refund: while a
+    /// caller holds a tenant token that the global bucket is about to reject, a concurrent
+    /// call of the same tenant must not see (and refill) the bucket without that token,
+    /// otherwise the refund lands on top of a refilled bucket and the tenant is admitted
+    /// above burst + rate * t. Lock order is always tenant bucket -> global bucket.
+    fn consume_tenant_then_global(&self, bucket: &Mutex<TokenBucket>) -> bool {
+        let mut tenant = bucket.lock();
+        if !tenant.try_consume() {
+            return false;
+        }
+
+        if let Some(global) = &self.global_bucket {
+            if !global.lock().try_consume() {
+                tenant.refund_one();
+                return false;
+            }
+        }
+
+        true
+    }
+
     /// Check rate limit for tenant
     ///
     /// Returns true if request is allowed (within rate limit).
@@ -202,20 +225,7 @@ impl RateLimiter {
                 let bucket = Arc::clone(bucket);
                 drop(buckets); // Release read lock before acquiring mutex
 
-                // Consume tenant token first.
-                if !bucket.lock().try_consume() {
-                    return false;
-                }
-
-                // Consume global token only after tenant passes.
-                if let Some(global) = &self.global_bucket {
-                    if !global.lock().try_consume() {
-                        bucket.lock().refund_one();
-                        return false;
-                    }
-                }
-
-                return true;
+                return self.consume_tenant_then_global(&bucket);
             }
         }
 
@@ -231,20 +241,8 @@ impl RateLimiter {
             )
         };
 
-        // Consume tenant token after releasing write lock.
-        if !bucket.lock().try_consume() {
-            return false;
-        }
-
-        // Consume global token only after tenant passes.
-        if let Some(global) = &self.global_bucket {
-            if !global.lock().try_consume() {
-                bucket.lock().refund_one();
-                return false;
-            }
-        }
-
-        true
+        // Consume tenant (and global) token after releasing write lock.
+        self.consume_tenant_then_global(&bucket)
     }
 
     /// Get current available tokens for tenant (for observability)
